@@ -41,6 +41,14 @@ type Obligation struct {
 	File     string
 	Obs      []obsTerm
 	noSplit  bool
+	// Cases: the same obligation stated separately for each return site of the function
+	// (guard and goal in that site's own state); proving every case proves the obligation,
+	// and each case has its own, much smaller, cone of influence.
+	Cases []oblCase
+}
+
+type oblCase struct {
+	Guard, Goal Sx
 }
 
 type Ctx struct {
